@@ -51,6 +51,8 @@ void    *vf_allocate(uint32_t id, uint64_t n, uint64_t elem) VF_NOEXCEPT;
 void    *vf_ledger_add(uint32_t id, uint64_t n, void *p) VF_NOEXCEPT;
 void     vf_deallocate(uint32_t id, void *p, uint64_t n, uint64_t elem) VF_NOEXCEPT;
 void     vf_deallocate_unsized(void *p) VF_NOEXCEPT;
+void    *vf_native_new(uint64_t bytes, uint64_t esz) VF_NOEXCEPT;   /* native real-C++ builds only */
+void     vf_native_delete(void *p) VF_NOEXCEPT;
 uint32_t vf_live_blocks(void) VF_NOEXCEPT;
 uint32_t vf_block_is(const void *p, uint64_t n, uint32_t id) VF_NOEXCEPT; /* live block (p,n) owned by id */
 uint32_t vf_nalloc(void) VF_NOEXCEPT;               /* number of allocate calls so far */
